@@ -85,6 +85,18 @@ def rbsp (chunks : List (List UInt8)) (complete : Bool) (skip : Nat) (ops : List
     | 'r' :: n =>
       let (r', res) := Rbsp.read r (String.ofList n).toNat!
       (r', (match res with | .ok b => avail - b.length | .error _ => avail), ioRes res :: outs)
+    | 'x' :: n =>
+      -- `read_exact` (std default): repeat `read` until the buffer is full; an empty read is UnexpectedEof
+      let n := (String.ofList n).toNat!
+      let rec go : Nat → Rbsp.BR → Nat → List UInt8 → Rbsp.BR × String
+        | 0, r, _, _ => (r, "runaway")
+        | fuel+1, r, need, acc =>
+          if need = 0 then (r, "ok:" ++ hexOf acc.reverse) else
+          match Rbsp.read r need with
+          | (r', .error k) => (r', "err:" ++ ioKind k)
+          | (r', .ok b) => if b = [] then (r', "err:Eof") else go fuel r' (need - b.length) (b.reverse ++ acc)
+      let (r', o) := go (n + 2) r n []
+      (r', 0, o :: outs)
     | 'D' :: _ =>
       let (r', got, status) := drainAll (Rbsp.fuelFor r) r []
       (r', 0, ("D:" ++ hexOf got ++ ":" ++ status) :: outs)
@@ -233,6 +245,11 @@ def bitsRun (src : Src) (ops : List String) : String :=
       else if op = "more" then cont toString (hasMore "f" s)
       else if op = "finish" then fin (finishRbsp s)
       else if op = "seifinish" then fin (finishSei s)
+      else if op = "rd" then
+        -- byte-aligned borrow of the underlying reader, one byte consumed through it
+        (if s.bits.length % 8 ≠ 0 then (some s, "rd:unaligned" :: o)
+         else if s.bits.length ≥ 8 then (some { s with bits := s.bits.drop 8 }, "rd:1" :: o)
+         else match s.fin with | .eof => (some s, "rd:0" :: o) | _ => (none, "rd:err" :: o))
       else if op.startsWith "skip" then cont (fun _ => "ok") (readBits "f" (op.drop 4).toString.toNat! s)
       else cont toString (readBits "f" (op.drop 1).toString.toNat! s))
     (some src, [])
